@@ -298,6 +298,22 @@ def print_observe(case):
     return ["(ok ((%s) %s))" % (" ".join(hexs(l) for l in r[1]), "true" if r[2] == 1 else "false")]
 
 
+def _invalid_regex_among(exprs):
+    """some accepted expression is a regular-expression search whose pattern `re` rejects (C15's subject)"""
+    import re as _re
+    for x in exprs:
+        try:
+            t = _E["get_search_term"](_E["log"], x)
+        except Exception:  # noqa
+            continue
+        if t is not None and str(t.method) == "=~":
+            try:
+                _re.compile(t.term)
+            except _re.error:
+                return True
+    return False
+
+
 def print_judge(case):
     """"prints exactly the search results": one line per distinct str(path) of the real search results of the
     accepted expressions, in order; in the paths-only mode the line IS that text."""
@@ -307,6 +323,8 @@ def print_judge(case):
         import re as _re
         if isinstance(r[1], _re.error):
             return None
+        if _invalid_regex_among(exprs):
+            return None     # the same situation after the repo's "YAMLPathException instead of re.error" fix
         return None if fl[3] else "other: process_yaml_file raised %s" % type(r[1]).__name__
     st, data = load(text)
     exp = []
@@ -659,6 +677,10 @@ def discrepancies(case):
         import re as _re
         if isinstance(r[1], _re.error):
             return []       # an invalid regular expression is C15's subject, not C07's
+        # after the repo's "invalid regular expression raises YAMLPathException" fix the same
+        # situation arrives as a YAMLPathException: still C15's subject when the term IS an invalid regex
+        if _invalid_regex_among([expr]):
+            return []
         return [("other", "the search raised %s: %s" % (type(r[1]).__name__, r[1]))]
     if o[2]:
         return []           # --refnames is outside the property text; tie only
